@@ -20,37 +20,37 @@ checks = {
    "For the same shapes, wallet-built transactions (1..n inputs, payload/lock-time variants, staking/binding withdrawals) x 6 sighash flags are signed with the right and 13 wrong passphrases (incl. white-space padded variants of the right one); the signed bytes must equal the input except for witnesses, every input must pass an independent consensus script-engine run, and wrong passphrases must return nothing and leave no witness.",
    "§5 C03"),
  "C04": (MC, "histbfs", "explicit-state BFS over create/address/sign/export/import/restart/passphrase-change sequences across instances with an independent key-derivation oracle",
-   "Every sequence of wallet-identity operations up to the stated depth across up to three instances runs on the real keystore; ids, every address index, NewAddress results and signatures are compared with an independent BIP-39/BIP-32/script derivation and across instances.",
+   "Every sequence of wallet-identity operations (create, new address of both classes, sign, export, keystore import, mnemonic import with and without internal-branch addresses, a second wallet on the same instance, public-passphrase changes between passphrases of different lengths, restart) up to the stated depth across up to three instances runs on the real keystore; ids, every external and internal address index, NewAddress results and signatures are compared with an independent BIP-39/BIP-32/script derivation and across instances.",
    "§5 C04"),
  "C05": (MC, "histbfs", "same state space as C04 with a wrong-passphrase family and a raw secret scan as oracle",
    "In every state of the C04 space, before and after an unlock, every secret-requiring operation is tried with ~60 wrong passphrases (must be refused, change nothing, not lock out the right one) and the raw databases, exported keystores and error strings are scanned for every secret the harness derives from the mnemonic.",
    "§5 C05"),
  "C06": (FE, "faultenum", "exhaustive crash-point enumeration (every wallet-database commit of every base history) through a db seam, with real restart and catch-up",
-   "For the shortest history of every state of the C01 space up to the base depth, the process is stopped before each of its wallet-database commits in turn; the wallet is restarted on the same database through the real start-up path and must report the reference ledger of the node's final chain.",
+   "For the shortest history of every state of the C01 space up to the base depth, and of a second space with API operations and background steps (mnemonic import, single rescan batches, removal call and removal run, NewAddress, restart), the process is stopped before each wallet-database commit in turn; the wallet is restarted on the same database through the real start-up path (goroutines until idle), must resume unfinished background work by itself, end with every wallet ready or gone, and report the reference ledger of the node's final chain.",
    "§5 C06"),
  "C07": (MC, "histbfs", "explicit-state BFS over import-call / single-rescan-batch / node-event / delivery / restart histories on the real implementation",
-   "Every history of importing a wallet whose history is already on chain, single rescan batches of the real asyncImport, blocks paying/spending it, reorganisations, deliveries and a restart up to the stated depth (plus a pass over 1003-block chains so that the rescan spans batches); refusal to select/remove while importing, and after completion the ledger equals the reference ledger.",
+   "Every history of importing a wallet whose history is already on chain (gap limit 3, payments to key-chain indexes 0/2/4), single rescan batches of the real asyncImport with the worker's re-queue decision modelled from their results, blocks paying/spending it, reorganisations, deliveries and a restart up to the stated depth, plus a pass over 1003-block chains (rescan spans batches) and a pass that starts after the first batch of a 1000-block rescan and explores reorganisations reaching below the rescan cursor; refusal to select/remove while importing; after completion every wallet is ready, every address with history reachable under the gap rule (independent derivation) is held, and the ledger equals the reference ledger.",
    "§5 C07"),
  "C08": (MC, "histbfs", "explicit-state BFS over two-wallet histories with removal call / removal run / restart / re-import, raw residue scan and survivor ledger oracle",
    "Every history of two wallets sharing transactions, the removal API call, the background removal run, restarts between them, reorganisations and re-import up to the stated depth; wrong passphrases are refused, after completion no raw database record mentions the removed wallet's id, script hashes or addresses, and the surviving wallet's ledger equals the reference.",
    "§5 C08"),
  "C09": (MC, "histbfs", "explicit-state BFS over relay/confirm/conflict/reorg histories on the real implementation with a reference pending-set model",
-   "Every history of relayed transactions (wallet spend, incoming payment, child, conflict, duplicate), blocks that confirm them or their conflicts, reorganisations and deliveries up to the stated depth runs on the real follower; in every state the wallet's pending buckets, the read-back of each pending entry, the spent_by_unmined flag of every coin and two automatic-selection probes are compared with a reference pending model, together with the C01 ledger oracle.",
+   "Every history of relayed transactions (wallet spend with one or two wallet inputs, incoming payment, child, conflict, duplicate while still valid), blocks that confirm them or their conflicts, reorganisations and deliveries up to the stated depth runs on the real follower; in every state the wallet's pending buckets, the read-back of each pending entry, the spent_by_unmined flag of every coin and two automatic-selection probes are compared with a reference pending model, together with the C01 ledger oracle.",
    "§5 C09"),
  "C10": (MC, "histbfs", "explicit-state BFS over staking/binding deposit, withdrawal, pending and reorg histories on the real implementation with a consensus-library lock oracle",
    "Every history of staking/binding deposits (old and new style across the scaled warm-up height), their withdrawals, pending versions and reorganisations up to the stated depth runs on the real follower; in every state both history views, balances/withdrawable classification and the sequence and consensus lock status of wallet-built withdrawals are compared with the reference.",
    "§5 C10"),
  "C11": (MC, "dbmodel", "explicit-state BFS over database operation sequences on the real ldb backend against a nested-map model",
-   "Every sequence of transaction/bucket/key operations within the stated bounds is executed on the real LevelDB backend and after each one the complete readable content (through the open write transaction and through a fresh read transaction) is compared with a nested-map reference; a second pass covers the directory-backed create/open/close path.",
+   "Every sequence of transaction/bucket/key operations within the stated bounds is executed on the real LevelDB backend and after each one (also on transitions into known states) the complete readable content (through the open write transaction and through a fresh read transaction) is compared with a nested-map reference; every fresh database is read back right after its first commit (nothing of another database's transactions may surface); a second pass covers the directory-backed create/open/close path.",
    "§5 C11"),
  "C12": (MC, "histbfs", "explicit-state BFS over new-address/payment/reorg/restart histories with restore probes, per gap limit",
    "For gap limits 2,3(,4): every history of address requests of both classes, payments to issued addresses, reorganisations removing payments and restarts up to the stated depth; each NewAddress outcome is compared with the issuing rule and with an independent derivation of the next address; in every state the listings, used flags and the ledger are compared with the reference and three mnemonic restores into a fresh second instance must rediscover every address with best-chain history.",
    "§5 C12"),
  "C18": (FE, "faultenum", "exhaustive storage-fault enumeration (every fallible database call index x repeat count of every base history) through a db seam",
-   "For the shortest history of every state of the C01 space up to the base depth, each fallible wallet-database call in turn (and runs of 2/3 consecutive calls) returns an error; once storage works again and the next tip arrives, all ledger queries must equal the reference ledger.",
+   "For the shortest history of every state of the C01 space up to the base depth, and of a second space with API operations and background steps (mnemonic import, rescan batches, removal call and run, NewAddress, restart), each fallible wallet-database call in turn (and runs of 2/3 consecutive calls) returns an error; an operation that reported failure is repeated once storage works again (the worker's own re-queueing is modelled from what the step returned); afterwards every wallet must be ready or gone, no phantom wallet or skipped/duplicated address may exist, and all ledger queries must equal the reference ledger.",
    "§5 C18"),
  "C19": (MC, "apienum", "exhaustive product of per-parameter domains for every API method in 9 reachable wallet states, under recover, plus malformed relays",
-   "For each of 9 reachable wallet states and each of the 28 request-taking API methods the full product of small per-field domains (derived from the request type by reflection, largest domains trimmed only above the cap) is executed on the real APIServer over the real wallet under recover() with FATAL trapping, followed by a follower liveness probe; 12 malformed relayed transactions per state go to the follower entry point.",
+   "For each of 20 reachable wallet states and each of the 28 request-taking API methods the full product of small per-field domains (derived from the request type by reflection, largest domains trimmed only above the cap) is executed on the real APIServer over the real wallet under recover() with FATAL trapping, followed by a follower liveness probe; 12 malformed relayed transactions per state go to the follower entry point.",
    "§5 C19"),
  "C17": (MC, "schedexplore", "exhaustive placement enumeration of follower commits among a query's database reads on the instrumented real code (controlled scheduler + db seam gates) with a sequential-twin oracle; auxiliary free-running -race pass",
    "For 24 scenarios (4 queries x 6 writers; 17 more in the thorough tier) every placement of the follower's 1-4 block commits (connects, pay+spend, reorgs) among the database reads of WalletBalance, AddressBalance, GetUtxo and AutoCreateRawTransaction is executed on the real code; the answer must equal the answer of the same call run alone at a block boundary inside its window. The data-race clause is covered only by a sampling race-detector pass (auxiliary, not exhaustive).",
